@@ -223,6 +223,29 @@ where
     }
 }
 
+/// the property on the implementation: new_const returns the image for exactly the documented length and panics otherwise
+fn p_img_new_const<C, O>(a: &[&str]) -> String
+where
+    C: Tag,
+    O: DataOrder,
+    for<'a> RawDataSlice<'a, C::Raw, O>: IntoIterator<Item = C::Raw>,
+{
+    let (bpp, w, h) = (u(a[0]) as u64, u(a[2]) as u64, u(a[3]) as u64);
+    let want = stride(w, bpp) * h;
+    let got = img_new_const::<C, O>(a);
+    if us(a[4]) as u64 == want {
+        if got.starts_with(&format!("ok {} {} ", w, h)) {
+            "OK 1".to_string()
+        } else {
+            format!("FAIL new_const on the exact length {}: {}", want, got)
+        }
+    } else if got == "panic" {
+        "OK 0".to_string()
+    } else {
+        format!("FAIL new_const on {} bytes ({} required): {}", a[4], want, got)
+    }
+}
+
 fn img_pixels<C, O>(a: &[&str]) -> String
 where
     C: Tag,
@@ -508,6 +531,7 @@ pub fn run(suite: &str, a: &[&str]) -> Option<String> {
         "img_pixels" => dispatch!(img_pixels, a),
         "img_draw" => dispatch!(img_draw, a),
         "p_img_new" => dispatch!(p_img_new, a),
+        "p_img_new_const" => dispatch!(p_img_new_const, a),
         "p_img_pixels" => dispatch!(p_img_pixels, a),
         "p_img_draw" => dispatch!(p_img_draw, a),
         _ => return None,
